@@ -257,6 +257,11 @@ HANDWRITTEN = [
     "{ P0 = P1 = 0xff; }", "{ PdV = RdV = RsV; }", "{ RdV = ReV = RsV + 1; }", "{ P3 = PdV = 0; }",
     "{ HEX_REG_ALIAS_PC = RsV; }", "{ HEX_REG_ALIAS_PKTCOUNT = RssV; }", "{ RdV = HEX_REG_ALIAS_PC + 4; }",
     "{ RdV = get_npc(pkt); }", "{ RdV = get_npc(pkt) + siV; }",
+    # constant conditions, literal arithmetic of mixed types, several parent-less hybrids in one body
+    "{ if (4 > 2) { RdV = RsV; } }", "{ if (0x10 == 16) JUMP(RsV); }", "{ if (1) { RdV = 1; } }", "{ if (2 < 1) { P0 = 1; } else { RdV = 2; } }",
+    "{ RdV = -(1U + 2); }", "{ RdV = 1U + RsV; }", "{ RddV = RsV + RssV; }", "{ RdV = (RsV > RtV) == (RsV < RtV); }",
+    "{ RdV = 1U + 2; }", "{ RddV = 1LL + RsV; }", "{ RdV = ~(2U - 1); }",
+    "{ i++; k++; }", "{ int32_t a1 = 0; int32_t b1 = 0; a1++; b1++; RdV = a1 + b1; }", "{ i++; j++; k++; RdV = i; }",
 ]
 
 
